@@ -15,5 +15,7 @@ EXPLANATION = B.MIXED + (
 def run(rep, tier):
     kernels.oracle_self_check(rep)
     kernels.run_scope(rep, B.STATE_FILES)
+    from vf.pyvc import tensors
+    tensors.run_tensor_contracts(rep, ["C05"])
     B.run_b(rep, morecells.measure_cells(tier, common.seed()), ["C05"], explore=True, tier=tier)
     B.run_b(rep, morecells.after_measure_cells(tier, common.seed()), ["C05"], explore=False, tier=tier)
